@@ -15,6 +15,9 @@ pub struct XofCfg {
     pub cursor: usize,
     /// (usage, bytes): streams whose dst usage equals `usage` yield these bytes (then zeros)
     pub script: Option<(u16, Vec<u8>)>,
+    /// (usage, insertions): streams with this dst usage get extra bytes spliced in at the given
+    /// output offsets (sorted); the real stream continues around them, identically for every party
+    pub inject: Option<(u16, Vec<(usize, Vec<u8>)>)>,
     /// (usage, seed, bytes handed out)
     pub record: Vec<(u16, Vec<u8>)>,
     pub recording: bool,
@@ -79,6 +82,9 @@ pub struct SimStream {
     inner: <XofTurboShake128 as Xof<32>>::SeedStream,
     usage: u16,
     scripted: Option<(Vec<u8>, usize)>,
+    /// pending insertions (output offset, bytes) and the output position reached
+    inject: Vec<(usize, Vec<u8>)>,
+    out_pos: usize,
     rec: Option<usize>,
 }
 
@@ -109,11 +115,15 @@ impl Xof<32> for SimXof {
     }
 
     fn into_seed_stream(self) -> SimStream {
-        let (scripted, rec) = CFG.with(|c| {
+        let (scripted, rec, inject) = CFG.with(|c| {
             let mut c = c.borrow_mut();
             let scripted = match &c.script {
                 Some((u, b)) if *u == self.usage => Some((b.clone(), 0)),
                 _ => None,
+            };
+            let inject = match &c.inject {
+                Some((u, v)) if *u == self.usage => v.clone(),
+                _ => Vec::new(),
             };
             let rec = if c.recording {
                 c.record.push((self.usage, Vec::new()));
@@ -121,9 +131,9 @@ impl Xof<32> for SimXof {
             } else {
                 None
             };
-            (scripted, rec)
+            (scripted, rec, inject)
         });
-        SimStream { inner: self.inner.into_seed_stream(), usage: self.usage, scripted, rec }
+        SimStream { inner: self.inner.into_seed_stream(), usage: self.usage, scripted, inject, out_pos: 0, rec }
     }
 }
 
@@ -137,6 +147,28 @@ impl TryRng for SimStream {
             for b in dest.iter_mut() {
                 *b = script.get(*pos).copied().unwrap_or(0);
                 *pos += 1;
+            }
+        } else if !self.inject.is_empty() {
+            // byte by byte around the insertion points (streams with insertions are short)
+            for b in dest.iter_mut() {
+                let mut taken = false;
+                if let Some((off, bytes)) = self.inject.first_mut() {
+                    if self.out_pos >= *off && !bytes.is_empty() {
+                        *b = bytes.remove(0);
+                        taken = true;
+                    }
+                }
+                if let Some((_, bytes)) = self.inject.first() {
+                    if bytes.is_empty() {
+                        self.inject.remove(0);
+                    }
+                }
+                if !taken {
+                    let mut one = [0u8; 1];
+                    self.inner.fill_bytes(&mut one);
+                    *b = one[0];
+                }
+                self.out_pos += 1;
             }
         } else {
             let mut off = 0;
